@@ -77,9 +77,9 @@ static void explore(Result& R) {
     std::string dir = std::string(getenv("VERIF_DIR") ? getenv("VERIF_DIR") : ".") + "/build/run/C13-" + std::to_string(getpid());
     for (int p = 0; p < (int)g_polys.size(); p++) for (int l = 0; l < 3; l++) for (int t = 0; t < 2; t++) for (int k = 0; k < (t ? K : 1); k++) {
         if (!R.args.mine(unit++)) continue; if (R.out_of_time(0.85)) { R.cap("deadline"); goto poisson; }
-        Case c{p, l, t, k}; cases++;
+        Case c{p, l, t, k}; cases++; progress("mode=init\ncase=" + case_text(c) + "\n");
         ForkOut fo = run_forked([&](char* buf, size_t cap) { std::string r = run_case(c, dir); snprintf(buf, cap, "%s", r.c_str()); }, 300);
-        std::string r = fo.data, err;
+        std::string r = fo.data, err; R.mix(case_text(c) + "=>" + r);
         if (fo.status == -1000) err = "initialisation-does-not-return: no answer within 300 s";
         else if (fo.status != 0) err = "initialisation-crashes: child ended with status " + std::to_string(fo.status);
         else if (r.rfind("ok:", 0) == 0) { ok++; double v, d; sscanf(r.c_str(), "ok:%lf:%lf", &v, &d); worst_v = std::max(worst_v, v); worst_d = std::max(worst_d, d); R.tables["cells_returned_per_polyhedron"][g_polys[p].name]++;
